@@ -240,3 +240,99 @@ def field_invariant(ctx, rec, field, extra_zero=True):
         detail.append((f.name, f.exprs[i]["line"], v))
         iv = v if iv is None else absint.hull(iv, v)
     return iv, detail
+
+
+# --------------------------------------------------------------------------
+# the `a + e` spelling of a subscript:  *(arr + e1 - e2),  (arr + e)->m
+
+def _ptr_terms(f, node, sign=1, depth=0):
+    """Decompose a pointer expression into (array base node, [(sign, offset node)])."""
+    j = ex.skip(f, node)
+    e = f.exprs[j]
+    if depth > 12:
+        return None, []
+    if e["k"] == "cast" and e["ck"] in ("ArrayToPointerDecay", "NoOp", "BitCast"):
+        inner = ex.skip(f, e["c"][0])
+        ie = f.exprs[inner]
+        if e["ck"] == "ArrayToPointerDecay" and "arr" in ie:
+            return inner, []
+        return _ptr_terms(f, inner, sign, depth + 1)
+    if "arr" in e and e["k"] in ("mem", "ref", "idx"):
+        return j, []
+    if e["k"] == "bin" and e["op"] in ("+", "-"):
+        a, b = e["c"]
+        ta = f.exprs[ex.skip(f, a)].get("t", "")
+        tb = f.exprs[ex.skip(f, b)].get("t", "")
+        a_ptr = ta.endswith("*") or "arr" in f.exprs[ex.skip(f, a)] or "[" in ta
+        b_ptr = tb.endswith("*") or "arr" in f.exprs[ex.skip(f, b)] or "[" in tb
+        if a_ptr and not b_ptr:
+            base, terms = _ptr_terms(f, a, sign, depth + 1)
+            return base, terms + [(sign if e["op"] == "+" else -sign, b)]
+        if b_ptr and not a_ptr and e["op"] == "+":
+            base, terms = _ptr_terms(f, b, sign, depth + 1)
+            return base, terms + [(sign, a)]
+    return None, []
+
+
+def pointer_subscripts(f):
+    """[(deref node, N, base node, terms)] for dereferences of `array + offset`
+    written with pointer arithmetic."""
+    c = f._cache.get("ptr_subscripts")
+    if c is not None:
+        return c
+    c = []
+    pos = flow.elem_pos(f)
+    reach = f.reachable_blocks()
+    for i, e in enumerate(f.exprs):
+        p = pos.get(i)
+        if p is None or p[0] not in reach:
+            continue
+        ptr = None
+        if e["k"] == "un" and e["op"] == "*":
+            ptr = e["c"][0]
+        elif e["k"] == "mem" and e.get("arrow"):
+            ptr = e["c"][0]
+        if ptr is None:
+            continue
+        pj = ex.skip(f, ptr)
+        if f.exprs[pj]["k"] != "bin":
+            continue
+        base, terms = _ptr_terms(f, pj)
+        if base is None or not terms:
+            continue
+        be = f.exprs[base]
+        c.append((i, be["arr"][0], base, terms))
+    f._cache["ptr_subscripts"] = c
+    return c
+
+
+def check_ptr_subscript(ctx, f, node, n, base, terms, an=None):
+    an = an or ctx.analysis(f)
+    st = an.state_before_expr(node)
+    if st is None:
+        return Verdict(node, n, None, None, "holds", "unreachable", base)
+
+    def total(state):
+        iv = (0, 0)
+        for sign, t in terms:
+            v = eval_nowrap(an, state, t)
+            iv = absint.add(iv, v) if sign > 0 else absint.sub(iv, v)
+        return iv
+    iv = total(st)
+    free = total({})
+    if iv[0] is not None and iv[0] >= 0 and iv[1] is not None and iv[1] < n:
+        return Verdict(node, n, iv, free, "holds", "", base)
+    why, status = [], "unproven"
+    if not (iv[1] is not None and iv[1] < n):
+        if iv[1] is not None and (free[1] is None or iv[1] < free[1]):
+            status = "violated"
+            why.append("upper bound %d admitted by the guards reaches past the last element %d" % (iv[1], n - 1))
+        else:
+            why.append("no upper bound is stated in this function (type range only)")
+    if not (iv[0] is not None and iv[0] >= 0):
+        if iv[0] is not None and (free[0] is None or iv[0] > free[0]):
+            status = "violated"
+            why.append("lower bound %d admitted by the guards is negative" % iv[0])
+        else:
+            why.append("no lower bound is stated in this function (type range only)")
+    return Verdict(node, n, iv, free, status, "; ".join(why), base)
